@@ -103,11 +103,13 @@ func C01(c *core.Ctx) {
 	c01RoundingLast(c)
 }
 
-func c01RoundCoverage(c *core.Ctx) {
+func c01RoundCoverage(c *core.Ctx) { roundCoverage(c, "C01-R2") }
+
+func roundCoverage(c *core.Ctx, rule string) {
 	p := c.P
 	totals := p.Named("bill", "Totals")
 	if totals == nil {
-		c.Ob("C01-R2", "UNRESOLVED:bill.Totals", token.NoPos, false, "type not found")
+		c.Ob(rule, "UNRESOLVED:bill.Totals", token.NoPos, false, "type not found")
 		return
 	}
 	st := totals.Underlying().(*types.Struct)
@@ -116,7 +118,7 @@ func c01RoundCoverage(c *core.Ctx) {
 	round := p.Func("bill", "Totals", "round")
 	reset := p.Func("bill", "Totals", "reset")
 	if calc == nil || round == nil || reset == nil {
-		c.Ob("C01-R2", "UNRESOLVED:bill.calculate/round/reset", token.NoPos, false, "functions not found")
+		c.Ob(rule, "UNRESOLVED:bill.calculate/round/reset", token.NoPos, false, "functions not found")
 		return
 	}
 	assigned := func(fd *core.FuncDecl) map[*types.Var]bool {
@@ -155,23 +157,23 @@ func c01RoundCoverage(c *core.Ctx) {
 			continue
 		}
 		if !inCalc[f] {
-			c.Ob("C01-R2", "bill.Totals."+f.Name()+"#input", f.Pos(), true, "")
+			c.Ob(rule, "bill.Totals."+f.Name()+"#input", f.Pos(), true, "")
 			c.Note("bill.Totals.%s is never assigned by the calculation pass: an input, outside the round/reset obligation", f.Name())
 			continue
 		}
-		c.Ob("C01-R2", "bill.Totals."+f.Name()+"#rounded", f.Pos(), inRound[f],
+		c.Ob(rule, "bill.Totals."+f.Name()+"#rounded", f.Pos(), inRound[f],
 			fmt.Sprintf("the calculation assigns totals.%s but Totals.round never rescales it: it is presented at working precision instead of the currency's decimals", f.Name()))
-		c.Ob("C01-R2", "bill.Totals."+f.Name()+"#reset", f.Pos(), inReset[f],
+		c.Ob(rule, "bill.Totals."+f.Name()+"#reset", f.Pos(), inReset[f],
 			fmt.Sprintf("the calculation assigns totals.%s but Totals.reset never clears it: a value from a previous calculation survives when the new one does not set it", f.Name()))
 	}
 	// round is really rounding: every assignment is a rescale of the same field
 	memo := map[*types.Func]int{}
-	c.Ob("C01-R2", round.Name()+"#only-rescales", round.Decl.Pos(), isRounder(p, round.Obj, memo), "Totals.round does something other than rescaling each field in place")
+	c.Ob(rule, round.Name()+"#only-rescales", round.Decl.Pos(), isRounder(p, round.Obj, memo), "Totals.round does something other than rescaling each field in place")
 	// tax summary
 	total := p.Named("tax", "Total")
 	tround := p.Func("tax", "Total", "round")
 	if total == nil || tround == nil {
-		c.Ob("C01-R2", "UNRESOLVED:tax.Total.round", token.NoPos, false, "not found")
+		c.Ob(rule, "UNRESOLVED:tax.Total.round", token.NoPos, false, "not found")
 		return
 	}
 	var leaves []amtLeaf
@@ -209,7 +211,7 @@ func c01RoundCoverage(c *core.Ctx) {
 		return true
 	})
 	for _, l := range leaves {
-		c.Ob("C01-R2", "tax.Total."+l.Path+"#rounded", l.Field.Pos(), done[l.Path] != "",
+		c.Ob(rule, "tax.Total."+l.Path+"#rounded", l.Field.Pos(), done[l.Path] != "",
 			fmt.Sprintf("tax.Total.round does not rescale %s (for every row): the tax summary presents it at working precision", l.Path))
 	}
 }
